@@ -40,6 +40,29 @@ Section Keyed.
     fold_left (keyed_step b) a [].
 End Keyed.
 
+(* ---------------------------------------------------------------- proposed repair of KeyedBimorphism *)
+(* fixes/C07_keyed_skip_bottom.diff: a bottom-valued entry is the same lattice value as a missing
+   entry, so it produces no output entry:
+       if val_a.is_bot() || val_b.is_bot() { continue; }
+   NOT the code in /repo; modelled to prove the repair correct (PMorph.keyed_fixed_bimorph: a
+   bimorphism for ANY wrapped bimorphism, bottom-preserving or not). *)
+Section KeyedFixed.
+  Variables VA VB VO : Type.
+  Variable LA : LatOps VA.
+  Variable LB : LatOps VB.
+  Variable f : VA -> VB -> VO.
+
+  Definition keyed_fixed_step (b : list (N * VB)) (out : list (N * VO)) (kv : N * VA) : list (N * VO) :=
+    match get (fst kv) b with
+    | None => out
+    | Some vb => if isbot LA (snd kv) || isbot LB vb then out
+                 else map_put out (fst kv, f (snd kv) vb)
+    end.
+
+  Definition keyed_fixed (a : list (N * VA)) (b : list (N * VB)) : list (N * VO) :=
+    fold_left (keyed_fixed_step b) a [].
+End KeyedFixed.
+
 (* ---------------------------------------------------------------- pair.rs *)
 Definition pairb (A B : Type) (a : A) (b : B) : A * B := (a, b).
 Unset Implicit Arguments.
@@ -62,6 +85,22 @@ Fixpoint bapply (s : bshape) : val (ty_a s) -> val (ty_b s) -> val (ty_o s) :=
   | BCart => cart
   | BPair ta tb => @pairb (val ta) (val tb)
   | BKeyed s' => keyed (bapply s')
+  end.
+
+(* the same shapes with the repaired KeyedBimorphism *)
+Fixpoint bapply_fixed (s : bshape) : val (ty_a s) -> val (ty_b s) -> val (ty_o s) :=
+  match s return val (ty_a s) -> val (ty_b s) -> val (ty_o s) with
+  | BCart => cart
+  | BPair ta tb => @pairb (val ta) (val tb)
+  | BKeyed s' => keyed_fixed (ops (ty_a s')) (ops (ty_b s')) (bapply_fixed s')
+  end.
+
+(* every PairBimorphism inside is over lattices satisfying C01's side condition *)
+Fixpoint types_ok (s : bshape) : bool :=
+  match s with
+  | BCart => true
+  | BPair ta tb => key_total ta && key_total tb
+  | BKeyed s' => types_ok s'
   end.
 
 (* Keyed<..Keyed<Cartesian>..>: no PairBimorphism inside *)
@@ -94,13 +133,18 @@ Arguments bo_ab {s}. Arguments bo_dab {s}. Arguments bo_adb {s}. Arguments bo_l 
 Arguments bo_ml {s}. Arguments bo_r {s}. Arguments bo_mr {s}. Arguments bo_eq_l {s}.
 Arguments bo_eq_r {s}.
 
-Definition model_bobs (s : bshape) (a da : val (ty_a s)) (b db : val (ty_b s)) : bobs s :=
+Definition model_bobs_gen (s : bshape) (ap : val (ty_a s) -> val (ty_b s) -> val (ty_o s))
+    (a da : val (ty_a s)) (b db : val (ty_b s)) : bobs s :=
   let LA := ops (ty_a s) in let LB := ops (ty_b s) in let LO := ops (ty_o s) in
-  let ab := bapply s a b in let dab := bapply s da b in let adb := bapply s a db in
-  let l := bapply s (m LA a da) b in let ml := m LO ab dab in
-  let r := bapply s a (m LB b db) in let mr := m LO ab adb in
+  let ab := ap a b in let dab := ap da b in let adb := ap a db in
+  let l := ap (m LA a da) b in let ml := m LO ab dab in
+  let r := ap a (m LB b db) in let mr := m LO ab adb in
   {| bo_ab := ab; bo_dab := dab; bo_adb := adb; bo_l := l; bo_ml := ml; bo_r := r; bo_mr := mr;
      bo_eq_l := eqb LO l ml; bo_eq_r := eqb LO r mr |}.
+
+Definition model_bobs (s : bshape) := model_bobs_gen s (bapply s).
+(* against a checkout with the repair applied (HV_KEYED_FIXED=1) *)
+Definition model_bobs_fixed (s : bshape) := model_bobs_gen s (bapply_fixed s).
 
 Definition bobs_agree (s : bshape) (i mo : bobs s) : bool :=
   let t := ty_o s in
@@ -114,3 +158,6 @@ Definition C07_holds_b (s : bshape) (i : bobs s) : bool := bo_eq_l i && bo_eq_r 
 
 Definition bchk (s : bshape) (a da : val (ty_a s)) (b db : val (ty_b s)) (i : bobs s) : N :=
   verdict (bobs_agree s i (model_bobs s a da b db)) (C07_holds_b s i).
+
+Definition bchk_fixed (s : bshape) (a da : val (ty_a s)) (b db : val (ty_b s)) (i : bobs s) : N :=
+  verdict (bobs_agree s i (model_bobs_fixed s a da b db)) (C07_holds_b s i).
